@@ -1,11 +1,11 @@
 SPECIFICATION Spec
 CONSTANTS
-  NSeg = 2
-  NPart = 1
-  TokenCap = 0
+  NSeg = 1
+  NPart = 3
+  TokenCap = 1
   Fmp4 = TRUE
-  Variant = "errorNoJoin"
-  MaxReq = 5
+  Variant = "ok"
+  MaxReq = 3
 INVARIANTS AtMostOneValue NoGoroutineLeft NoCallbackAfterwards NeverNil ErrorSurfaced
 PROPERTIES Terminates
 CHECK_DEADLOCK FALSE
